@@ -23,8 +23,9 @@ def check(run):
     sample = [[{k: e[k] for k in ("op", "dn", "code")} for e in rows[1:4]]] if len(rows) > 3 else []
     cov = {"states": p["mc"].distinct, "transitions": p["mc"].generated, "traces_validated_against_impl": len(p["behaviours"]),
            "samples": sample + [p["behaviours"][-1]], "evaluations": nops, "distinct_nontrivial": distinct,
-           "exhaustive_behaviours": p["nexh"], "simulated_behaviours": p["nsim"],
-           "rule": "all operation sequences of length %d over the pool (exhaustive, TLC BFS with history variable) plus TLC -simulate behaviours; "
+           "exhaustive_behaviours": p["nexh"], "exhaustive_behaviours_in_model": p["nexh_model"], "simulated_behaviours": p["nsim"],
+           "rule": "all operation sequences of length %d over the pool (exhaustive in the model, TLC BFS with history variable; replayed: all shorter ones and, "
+                   "when the full-length ones exceed the cap, a seeded sample of them - see exhaustive_behaviours vs exhaustive_behaviours_in_model) plus TLC -simulate behaviours; "
                    "each replayed on a real test directory by two alternating clients (plain and TLS directories); after every operation all "
                    "pool DNs are searched; non-trivial = distinct behaviour containing at least one add/modify/delete" % (2 if run.quick() else 3)}
     return vlib.finish(run, "model_checking", cov, viols, ASSUME)
